@@ -4,3 +4,6 @@ import OsacaVerif.Model.RegDep
 import OsacaVerif.Spec.RegUniverse
 import OsacaVerif.Lemmas.Text
 import OsacaVerif.Props.C12
+import OsacaVerif.Spec.X86Ast
+import OsacaVerif.Model.ParseX86
+import OsacaVerif.Props.C09
